@@ -879,6 +879,29 @@ func (g *gen) verifyCase() *Case {
 	case 4:
 		c.Alg = []string{"HS256", "RSA1_5", "", "ES255"}[g.r.Intn(4)]
 		c.Path = "unsupported-alg"
+	case 5, 6:
+		// a signature SHORTER than the modulus / the fixed size, with room behind it for the missing
+		// bytes: RFC 8017 8.2.2 step 1 (and Go) reject it; nothing may "repair" it in the caller's array
+		missing := 1 + g.r.Intn(3)
+		if family(alg) == "rsasig" && g.r.Intn(2) == 0 {
+			if d, sg := g.kr.leadingZeroSig(alg); sg != nil { // genuine signature, leading zero byte stripped
+				digest, sig, missing = d, sg[1:], 1
+				c.Path = "leading-zero-stripped-signature"
+			}
+		}
+		if c.Path == "ok" {
+			sig = sig[missing:]
+			c.Path = "signature-short-at-front"
+		}
+		c.Sig = false
+		sp := []int{missing, missing + 1, missing + g.r.Intn(8), 64}[g.r.Intn(4)]
+		reqs := []req{{name: "digest", data: digest, spare: -1}, {name: "signature", data: sig, spare: sp}}
+		if g.r.Intn(3) == 0 {
+			g.layoutWire(c, reqs, [][]int{{0, 1}, {1, 0}}[g.r.Intn(2)], 0)
+		} else {
+			g.layout(c, reqs)
+		}
+		return c
 	}
 	reqs := []req{{name: "digest", data: digest, nilable: true, spare: -1},
 		{name: "signature", data: sig, nilable: true, spare: -1}}
@@ -886,6 +909,49 @@ func (g *gen) verifyCase() *Case {
 		reqs = append(reqs, req{name: "key", data: g.r.Bytes(32), spare: -1})
 	}
 	g.place(c, reqs)
+	return c
+}
+
+/* ---------- sequences: results kept and handed on ---------- */
+
+func (g *gen) seqCase() *Case {
+	c := &Case{Auth: true, Prim: true, Sig: true, OutLen: -1, Path: "sequence"}
+	switch g.r.Intn(10) {
+	case 0, 1:
+		c.Fn = "seq.aeskw"
+		g.place(c, []req{{name: "cek", data: g.r.Bytes([]int{16, 24, 32, 40, 64}[g.r.Intn(5)]), spare: -1}})
+	case 2, 3, 4, 5:
+		c.Fn, c.Alg, c.KeyKind = "seq.symmetric", symAlgs[g.r.Intn(len(symAlgs))], "oct"
+		ks, ns := symSizes(c.Alg)
+		n := g.length()
+		if family(c.Alg) == "aescbc-nopad" {
+			n = n / 16 * 16
+		}
+		if family(c.Alg) == "aeskw" {
+			n = 16 + n/8*8
+		}
+		g.place(c, []req{{name: "plaintext", data: g.r.Bytes(n), spare: -1}, {name: "key", data: g.r.Bytes(ks), spare: -1},
+			{name: "nonce", data: g.r.Bytes(ns), nilable: true, spare: -1}, {name: "associatedData", data: g.r.Bytes(g.r.Intn(24)), nilable: true, spare: -1}})
+	case 6:
+		c.Fn, c.Alg = "seq.aescbcaead", cbcAeadAlgs[g.r.Intn(len(cbcAeadAlgs))]
+		p := cbcAeadParams[c.Alg]
+		g.place(c, []req{{name: "plaintext", data: g.r.Bytes(g.length()), spare: -1}, {name: "nonce", data: g.r.Bytes(16), spare: -1},
+			{name: "additionalData", data: g.r.Bytes(g.r.Intn(24)), nilable: true, spare: -1}, {name: "key", data: g.r.Bytes(p.enc + p.mac), spare: -1}})
+	case 7:
+		c.Fn, c.Size = "seq.padding", 16
+		g.place(c, []req{{name: "buf", data: g.r.Bytes(g.length()), spare: -1}})
+	case 8:
+		c.Fn, c.Alg = "seq.signature", sigAlgs[g.r.Intn(len(sigAlgs))]
+		n := 32
+		if c.Alg != "EdDSA" {
+			n = sigHash(c.Alg).Size()
+		}
+		g.place(c, []req{{name: "digest", data: g.r.Bytes(n), spare: -1}})
+	case 9:
+		c.Fn, c.Alg = "seq.rsa", rsaEncAlgs[g.r.Intn(len(rsaEncAlgs))]
+		g.place(c, []req{{name: "plaintext", data: g.r.Bytes(g.r.Intn(60)), spare: -1},
+			{name: "associatedData", data: g.r.Bytes(g.r.Intn(24)), nilable: true, spare: -1}})
+	}
 	return c
 }
 
